@@ -209,7 +209,13 @@ func (f *Frame) placeOf(v ssa.Value) *Place {
 // safety emits a safety obligation (if the unit claims safety) and assumes the condition afterwards.
 func (f *Frame) safety(kind string, cond string, in ssa.Instruction) {
 	e := f.e
-	if e.unit.Safety {
+	want := len(e.unit.SafetyKinds) == 0
+	for _, k := range e.unit.SafetyKinds {
+		if k == kind {
+			want = true
+		}
+	}
+	if e.unit.Safety && want {
 		e.safetyOrd[kind]++
 		id := fmt.Sprintf("%s#safety[%s#%d]", e.unit.Key(), kind, e.safetyOrd[kind])
 		e.oblige("safety", id, kind, f.reach, cond, e.P.pos(in.Pos()))
@@ -778,6 +784,8 @@ func (f *Frame) instr(in ssa.Instruction) {
 		}
 		f.tuples[in] = rs
 	case *ssa.MakeChan:
+		// make(chan T, n) panics for n < 0
+		f.safety("makechan", e.idxLe(e.idxLit("0"), f.val(in.Size)), in)
 		f.vals[in] = e.allocRef(f.st)
 	case *ssa.SliceToArrayPointer:
 		f.havocVal(in, "slice to array pointer")
@@ -1252,7 +1260,13 @@ func (f *Frame) encodeBody(args []string, reach string, st *State) {
 					f.region.exits = append(f.region.exits, f.reach)
 				}
 			case *ssa.Panic:
-				if e.unit.Safety && f.depth == 0 {
+				deep := false // explicit panics of inlined callees count only when the unit asks for them ("safety panic")
+				for _, k := range e.unit.SafetyKinds {
+					if k == "panic" {
+						deep = true
+					}
+				}
+				if e.unit.Safety && (f.depth == 0 && len(e.unit.SafetyKinds) == 0 || deep) {
 					e.safetyOrd["panic"]++
 					e.oblige("safety", fmt.Sprintf("%s#safety[panic#%d]", e.unit.Key(), e.safetyOrd["panic"]), "panic", f.reach, "false", e.P.pos(in.Pos()))
 				}
